@@ -252,6 +252,12 @@ def immutable_values(run, model, rule="C12.immutable-values"):
         gets, sets = _ctx_value_aliases(model, fi, ctxvars, summ)
         set_args = [x for _, x in sets]
         sites = meta.mutation_sites(model, fi)
+        # an attribute assigned on an object held by the variable mutates that object just the same
+        for n in flow.cfg.nodes:
+            if n.kind == "stmt" and isinstance(n.ast, (ast.Assign, ast.AugAssign, ast.AnnAssign)):
+                for tg in (n.ast.targets if isinstance(n.ast, ast.Assign) else [n.ast.target]):
+                    if isinstance(tg, ast.Attribute):
+                        sites.append((n, "attribute store `.%s =`" % tg.attr, flow.term(tg.value, n)))
         uses_ctx = bool(gets or sets) or any(_may_alias(model, recv, set_args, ctxvars, summ) for _, _, recv in sites)
         if not uses_ctx:
             continue
@@ -393,3 +399,88 @@ def no_memo(run, model, rule="C12.no-memo"):
                 run.violation(rule, "%s:%s" % (name, src_of(f)), "`%s` remembers results across calls: a later call with an equal (not identical) key receives the object computed for an earlier call, and every caller shares it" % src_of(f), "%s/%s.py:%s" % ("icontract", name, f.lineno), None, src_of(f))
         else:
             run.ok(rule, name, "no memoisation (functools.lru_cache / cache / cached_property) anywhere in the module", "icontract/%s.py:1" % name)
+
+
+def lazy_user_code(run, model, rule="C11.no-lazy-user-code"):
+    """User code is never run from inside ``map`` / ``filter`` (or an iterator protocol the library consumes with
+    ``next``): a ``StopIteration`` raised by the user's condition, capture, error factory or ``__bool__`` would be
+    taken for the end of the iteration -- the exception vanishes and the remaining contracts are skipped."""
+    uc = UserCode(model)
+    scanned = 0
+    for fi in sorted(model.functions.values(), key=lambda f: f.qual):
+        if not fi.live:
+            continue
+        flow = get_flow(model, fi)
+        scanned += 1
+        bad = []
+        for n in flow.cfg.nodes:
+            for call, cond, aw in calls_in(n):
+                ct = strip_sites(flow.term(call.func, n))
+                if ct in (("builtin", "map"), ("builtin", "filter"), ("attr", ("module", "itertools"), "starmap"), ("attr", ("module", "itertools"), "takewhile"), ("attr", ("module", "itertools"), "dropwhile"), ("attr", ("module", "itertools"), "filterfalse")) and call.args:
+                    f_arg = call.args[0]
+                    # functools.partial(f, ...) -> f
+                    while isinstance(f_arg, ast.Call) and src_of(f_arg.func) in ("functools.partial", "partial") and f_arg.args:
+                        f_arg = f_arg.args[0]
+                    reaches = False
+                    if isinstance(f_arg, ast.Lambda):
+                        for sub in ast.walk(f_arg.body):
+                            if isinstance(sub, ast.Call):
+                                cf = fi_of_term(model, flow.term(sub.func, n))
+                                if (cf is not None and uc.may(cf)) or (isinstance(sub.func, ast.Attribute) and sub.func.attr in USER_ATTRS):
+                                    reaches = True
+                    else:
+                        cf = fi_of_term(model, flow.term(f_arg, n))
+                        if cf is not None and uc.may(cf):
+                            reaches = True
+                        if isinstance(f_arg, ast.Attribute) and f_arg.attr in USER_ATTRS:
+                            reaches = True
+                    if reaches:
+                        bad.append((n, call))
+        for n, call in bad[:2]:
+            run.violation(rule, "%s:%s" % (fi.qual, src_of(call.func)), "`%s(...)` runs user code (a condition, capture, error factory or truth test) from inside the iterator protocol: a StopIteration raised there ends the iteration silently instead of reaching the caller, and the contracts after it are skipped" % src_of(call.func), fi.loc(n), None, first_line(n.stmt))
+        if not bad and uc.may(fi):
+            run.ok(rule, fi.qual, "user code is called directly, not through map/filter", fi.loc())
+    return scanned
+
+
+def frozen_after_init(run, model, rule="C12.frozen-after-init"):
+    """The library's long-lived objects (contracts, snapshots, decorators) do not change after construction.
+
+    A method other than ``__init__`` that assigns an attribute of ``self`` keeps state between calls: what one
+    violation computed (a resolved closure, a parsed lambda, an await decision) is reused by the next one, and is
+    shared by every thread and task that uses the contract.  The per-violation AST visitors are exempt: a fresh one
+    is made for every message."""
+    count = 0
+    for name, mod in sorted(model.modules.items()):
+        for cname, cd in sorted(mod.classes.items()):
+            per_message = any((isinstance(b, ast.Attribute) and b.attr == "NodeVisitor") or (isinstance(b, ast.Name) and b.id == "NodeVisitor") for b in cd.bases)
+            methods = [f for f in model.methods(name, cname)]
+            if not methods:
+                continue
+            count += 1
+            bad = None
+            for fi in methods:
+                if fi.name in ("__init__", "__new__", "__post_init__") or per_message:
+                    continue
+                a = fi.node.args
+                params = [x.arg for x in a.posonlyargs + a.args]
+                if not params:
+                    continue
+                selfname = params[0]
+                for sub in ast.walk(fi.node):
+                    targets = []
+                    if isinstance(sub, ast.Assign):
+                        targets = sub.targets
+                    elif isinstance(sub, (ast.AugAssign, ast.AnnAssign)):
+                        targets = [sub.target]
+                    for tg in targets:
+                        if isinstance(tg, ast.Attribute) and isinstance(tg.value, ast.Name) and tg.value.id == selfname:
+                            bad = (fi, sub, tg.attr)
+                    if isinstance(sub, ast.Call) and isinstance(sub.func, ast.Name) and sub.func.id == "setattr" and sub.args and isinstance(sub.args[0], ast.Name) and sub.args[0].id == selfname:
+                        bad = (fi, sub, "setattr")
+            if bad:
+                fi, st, attr = bad
+                run.violation(rule, "%s.%s.%s" % (name, cname, fi.name), "`%s` assigns `self.%s` after construction: the object keeps what an earlier call computed, so a later call (or another thread or task using the same contract) sees the earlier result" % (fi.name, attr), fi.loc(st), None, first_line(st))
+            else:
+                run.ok(rule, "%s.%s" % (name, cname), "no method other than __init__ assigns attributes of self" + (" (per-message visitor: exempt)" if per_message else ""), "icontract/%s.py:%d" % (name, cd.lineno))
+    return count
